@@ -558,7 +558,16 @@ func (s *Session) applyContract(fr *Frame, c *Contract, fn *ssa.Function, sig *t
 		for _, sub := range subs {
 			f := s.evalBool(se, sub.E)
 			g := s.evalGoal(se, sub.E)
-			s.addObl(&Obligation{Name: fmt.Sprintf("%s/pre@%s#%d.%s", fr.oblPfx, short, ord, clauseNameSplit(rq, i, sub, len(subs))), Kind: "pre", Func: fr.oblPfx, Src: "requires " + sub.Src + "   [callee " + ckey + "]", Guard: st.Reach, Formula: g})
+			if fr.top && fr.contract != nil && fr.contract.Options["assumecallpre"] != "" {
+				// `option assumecallpre`: this (thin, structural) contract does not establish its callees' preconditions;
+				// they are assumed and listed as an assumption in the evidence
+				if fr.nSafety["_prenoted"] == 0 {
+					fr.nSafety["_prenoted"] = 1
+					s.note("ASSUMED in %s: option assumecallpre - the preconditions of the functions it calls are assumed, not proved here", fr.fn.String())
+				}
+			} else {
+				s.addObl(&Obligation{Name: fmt.Sprintf("%s/pre@%s#%d.%s", fr.oblPfx, short, ord, clauseNameSplit(rq, i, sub, len(subs))), Kind: "pre", Func: fr.oblPfx, Src: "requires " + sub.Src + "   [callee " + ckey + "]", Guard: st.Reach, Formula: g})
+			}
 			s.assume(Imp(st.Reach, f)) // continue as if it held (avoid cascades)
 		}
 	}
